@@ -87,34 +87,36 @@ Next == Build \/ StartOps \/ Env \/ Mkdir \/ Verify
 Spec == Init /\ [][Next]_fvars
 
 ---------------------------------------------------------------------------
+(* The statements of C06 - C09.  Each is written over a forest value f (X_(f)) so that a trace         *)
+(* specification can evaluate it with the forest computed once; the invariant X is X_(F).              *)
 Last == hist[Len(hist)]
 IsOp(op) == hist # <<>> /\ Last.op = op
 New == All(fs) \ All(pre)
 NewUnder == {p \in New : p # Target /\ UnderTarget(p, Target)}
 TargetPrefixes == {Prefixes(Target)[i] : i \in 1..Len(Prefixes(Target))}
-DistinctRoots == \A i, j \in 1..Len(F) : i # j => F[i].name # F[j].name
+DistinctRoots_(f) == \A i, j \in 1..Len(f) : i # j => f[i].name # f[j].name
 Kept == pre.dirs \subseteq fs.dirs /\ pre.files \subseteq fs.files /\ fs.dirs \cap fs.files = {}
-NoLong == \A i \in 1..Len(items) : ~HasLong(items[i].n)
+NoLong_(f) == \A i \in 1..Len(ForestNodes(f)) : LET ns == ForestNodes(f)[i].names IN ~HasLong(ns[Len(ns)])
 
 \* C06 -------------------------------------------------------------------
-RootStat(i) == Stat(pre, Join2(Target, F[i].name))
-C06_ExactlyTheTree ==
-  (IsOp("mkdir") /\ ~Last.dry /\ AllPlain(F) /\ DistinctRoots /\ res.k = "ok") =>
-     /\ \A i \in 1..Len(F) : RootStat(i) = "notexist"
-     /\ NewUnder = ExpectedPaths(F, Target)
-     /\ fs.files \cap NewUnder = ExpectedFiles(F, Last.exts, Target)
+RootStat_(f, i) == Stat(pre, Join2(Target, f[i].name))
+C06_ExactlyTheTree_(f) ==
+  (IsOp("mkdir") /\ ~Last.dry /\ AllPlain(f) /\ DistinctRoots_(f) /\ res.k = "ok") =>
+     /\ \A i \in 1..Len(f) : RootStat_(f, i) = "notexist"
+     /\ NewUnder = ExpectedPaths(f, Target)
+     /\ fs.files \cap NewUnder = ExpectedFiles(f, Last.exts, Target)
      /\ New \ NewUnder \subseteq TargetPrefixes
      /\ Kept
-C06_ExistsUnchanged ==
-  (IsOp("mkdir") /\ ~Last.dry /\ AllPlain(F) /\ \E i \in 1..Len(F) : RootStat(i) = "ok") =>
+C06_ExistsUnchanged_(f) ==
+  (IsOp("mkdir") /\ ~Last.dry /\ AllPlain(f) /\ \E i \in 1..Len(f) : RootStat_(f, i) = "ok") =>
      res.k = "exists" /\ fs = pre
-C06_RefusalIsError ==
-  (IsOp("mkdir") /\ ~Last.dry /\ AllPlain(F) /\ DistinctRoots /\ res.k = "ok") =>
-     (NoLong /\ ExpectedPaths(F, Target) \subseteq All(fs))
+C06_RefusalIsError_(f) ==
+  (IsOp("mkdir") /\ ~Last.dry /\ AllPlain(f) /\ DistinctRoots_(f) /\ res.k = "ok") =>
+     (NoLong_(f) /\ ExpectedPaths(f, Target) \subseteq All(fs))
 \* a well-formed request on a usable target succeeds
-C06_Succeeds ==
-  (/\ IsOp("mkdir") /\ ~Last.dry /\ AllPlain(F) /\ DistinctRoots /\ NoLong
-   /\ (\A i \in 1..Len(F) : RootStat(i) = "notexist")
+C06_Succeeds_(f) ==
+  (/\ IsOp("mkdir") /\ ~Last.dry /\ AllPlain(f) /\ DistinctRoots_(f) /\ NoLong_(f)
+   /\ (\A i \in 1..Len(f) : RootStat_(f, i) = "notexist")
    /\ Stat(pre, Target) \in {"ok", "notexist"}
    /\ (\A j \in 1..Len(Prefixes(Target)) : ~IsFile(pre, Prefixes(Target)[j]))) => res.k = "ok"
 
@@ -125,43 +127,66 @@ Hostile(f) == \E i \in 1..Len(ForestNodes(f)) :
 C07_Confined ==
   IsOp("mkdir") => \A p \in New : UnderTarget(p, Target) \/ p \in TargetPrefixes
 C07_NothingRemoved == IsOp("mkdir") => Kept
-C07_InvalidRejected == (IsOp("mkdir") /\ Hostile(F)) => (res.k = "invalid" /\ fs = pre)
+C07_InvalidRejected_(f) == (IsOp("mkdir") /\ Hostile(f)) => (res.k = "invalid" /\ fs = pre)
 
 \* C08 -------------------------------------------------------------------
-Want == ExpectedPaths(F, Target)
-RootDir(i) == Target \o <<"SL">> \o F[i].name
-MissingOf(i) == {p \in ExpectedPaths(<<F[i]>>, Target) : ~Exists(pre, p)}
-ExtraOf(i) == {p \in All(pre) : IsPrefixSeq(RootDir(i) \o <<"SL">>, p)} \ Want
-Differs(i, strict) == MissingOf(i) # {} \/ (strict /\ ExtraOf(i) # {})
-OsTrouble == \E i \in 1..Len(F) : Stat(pre, RootDir(i)) = "err"
-C08_VerdictIff ==
-  (IsOp("verify") /\ AllPlain(F) /\ DistinctRoots /\ ~OsTrouble) =>
-     ((res.k = "ok") <=> (\A i \in 1..Len(F) : ~Differs(i, Last.strict)))
-C08_Lists ==
-  (IsOp("verify") /\ AllPlain(F) /\ DistinctRoots /\ ~OsTrouble /\ \E i \in 1..Len(F) : Differs(i, Last.strict)) =>
-     LET first == CHOOSE i \in 1..Len(F) : Differs(i, Last.strict) /\ \A j \in 1..(i-1) : ~Differs(j, Last.strict) IN
+RootDir_(f, i) == Target \o <<"SL">> \o f[i].name
+MissingOf_(f, i) == {p \in ExpectedPaths(<<f[i]>>, Target) : ~Exists(pre, p)}
+ExtraOf_(f, i) == {p \in All(pre) : IsPrefixSeq(RootDir_(f, i) \o <<"SL">>, p)} \ ExpectedPaths(f, Target)
+Differs_(f, i, strict) == MissingOf_(f, i) # {} \/ (strict /\ ExtraOf_(f, i) # {})
+OsTrouble_(f) == \E i \in 1..Len(f) : Stat(pre, RootDir_(f, i)) = "err"
+C08_VerdictIff_(f) ==
+  (IsOp("verify") /\ AllPlain(f) /\ DistinctRoots_(f) /\ ~OsTrouble_(f)) =>
+     ((res.k = "ok") <=> (\A i \in 1..Len(f) : ~Differs_(f, i, Last.strict)))
+C08_Lists_(f) ==
+  (IsOp("verify") /\ AllPlain(f) /\ DistinctRoots_(f) /\ ~OsTrouble_(f) /\ \E i \in 1..Len(f) : Differs_(f, i, Last.strict)) =>
+     LET first == CHOOSE i \in 1..Len(f) : Differs_(f, i, Last.strict) /\ \A j \in 1..(i-1) : ~Differs_(f, j, Last.strict) IN
      /\ res.k = "diff"
-     /\ res.missing = MissingOf(first)
-     /\ res.extra = (IF Last.strict THEN ExtraOf(first) ELSE {})
+     /\ res.missing = MissingOf_(f, first)
+     /\ res.extra = (IF Last.strict THEN ExtraOf_(f, first) ELSE {})
 C08_ReadOnly == IsOp("verify") => fs = pre
-C08_FreshMkdirVerifies ==
-  (IsOp("verify") /\ Len(hist) = 2 /\ hist[1].op = "mkdir" /\ ~hist[1].dry /\ AllPlain(F) /\ DistinctRoots /\ NoLong
-     /\ {p \in All(pre) : UnderTarget(p, Target) /\ p # Target} = Want) => res.k = "ok"
+C08_FreshMkdirVerifies_(f) ==
+  (IsOp("verify") /\ Len(hist) = 2 /\ hist[1].op = "mkdir" /\ ~hist[1].dry /\ AllPlain(f) /\ DistinctRoots_(f) /\ NoLong_(f)
+     /\ {p \in All(pre) : UnderTarget(p, Target) /\ p # Target} = ExpectedPaths(f, Target)) => res.k = "ok"
 
 \* C09 -------------------------------------------------------------------
 C09_DryTouchesNothing == (IsOp("mkdir") /\ Last.dry) => fs = pre
-C09_DryRejectsIffReal ==
+C09_DryRejectsIffReal_(f) ==
   (IsOp("mkdir") /\ Last.dry) =>
-     LET real == MkdirOp(pre, F, Last.exts, Target, Last.route, FALSE) IN
+     LET real == MkdirOp(pre, f, Last.exts, Target, Last.route, FALSE) IN
      (res.k = "invalid") <=> (real.res = "invalid")
 C09_DryIsReportOrInvalid == (IsOp("mkdir") /\ Last.dry) => res.k \in {"report", "invalid"}
 \* the counts of the report are the kinds a real Mkdir creates on a fresh target
 Fresh == [dirs |-> TargetPrefixes, files |-> {}]
-C09_CountsPredictReal ==
-  (IsOp("mkdir") /\ Last.dry /\ res.k = "report" /\ AllPlain(F) /\ DistinctRoots /\ NoLong) =>
-     LET m == MkdirOp(Fresh, F, Last.exts, Target, Last.route, FALSE) IN
+C09_CountsPredictReal_(f) ==
+  (IsOp("mkdir") /\ Last.dry /\ res.k = "report" /\ AllPlain(f) /\ DistinctRoots_(f) /\ NoLong_(f)) =>
+     LET m == MkdirOp(Fresh, f, Last.exts, Target, Last.route, FALSE)
+         created == m.fs IN
      /\ m.res = "ok"
-     /\ \A i \in 1..Len(F) :
-          LET under(S) == Cardinality({p \in S : p = RootDir(i) \/ IsPrefixSeq(RootDir(i) \o <<"SL">>, p)}) IN
-          res.counts[i] = <<under(m.fs.dirs), under(m.fs.files)>>
+     /\ \A i \in 1..Len(f) :
+          LET under(S) == Cardinality({p \in S : p = RootDir_(f, i) \/ IsPrefixSeq(RootDir_(f, i) \o <<"SL">>, p)}) IN
+          res.counts[i] = <<under(created.dirs), under(created.files)>>
+\* ... said without the model of Mkdir: the node paths, by kind
+C09_CountsDeclared_(f) ==
+  (IsOp("mkdir") /\ Last.dry /\ res.k = "report" /\ AllPlain(f) /\ DistinctRoots_(f)) =>
+     LET ds == ExpectedDirs(f, Last.exts, Target)
+         fl == ExpectedFiles(f, Last.exts, Target) IN
+     /\ Len(res.counts) = Len(f)
+     /\ \A i \in 1..Len(f) :
+          LET under(S) == Cardinality({p \in S : p = RootDir_(f, i) \/ IsPrefixSeq(RootDir_(f, i) \o <<"SL">>, p)}) IN
+          res.counts[i] = <<under(ds), under(fl)>>
+
+\* the invariants of the exhaustive runs
+DistinctRoots == DistinctRoots_(F)
+NoLong == NoLong_(F)
+C06_ExactlyTheTree == C06_ExactlyTheTree_(F)
+C06_ExistsUnchanged == C06_ExistsUnchanged_(F)
+C06_RefusalIsError == C06_RefusalIsError_(F)
+C06_Succeeds == C06_Succeeds_(F)
+C07_InvalidRejected == C07_InvalidRejected_(F)
+C08_VerdictIff == C08_VerdictIff_(F)
+C08_Lists == C08_Lists_(F)
+C08_FreshMkdirVerifies == C08_FreshMkdirVerifies_(F)
+C09_DryRejectsIffReal == C09_DryRejectsIffReal_(F)
+C09_CountsPredictReal == C09_CountsPredictReal_(F) /\ C09_CountsDeclared_(F)
 =============================================================================
